@@ -146,7 +146,7 @@ def check(tier, seed, t0):
              ("cli", common.run_cli_cases(None, cli_case, seed, "c17cli", total, 63 if tier == "quick" else 200))]
     if tier == "thorough":
         import sanitize
-        parts.append(("miri", sanitize.miri_leg("C17", 3)(tier, seed)))
+        parts.append(("miri", sanitize.miri_leg("C17", 2)(tier, seed)))
     rep = common.merge_reports(parts)
     return common.finalize("C17", tier, seed, "exploration", RULE, rep, t0, ASSUME,
                            floor_eval=300, floor_distinct=150)
